@@ -20,7 +20,7 @@ const (
 	tFind      = "call:(*signature.Verifier).findResponseHashes(param:v,call:(*url.URL).String(param:e.Request.URL))"
 	tBMice     = "call:(bundle/version.Version).MiceEncoding(param:v.Version)"
 	tBDigest   = "call:(http.Header).Get(param:e.Response.Header,call:(mice.Encoding).DigestHeaderName(" + tBMice + "))"
-	tBDecoder  = "call:(mice.Encoding).NewDecoder(" + tBMice + ",call:bytes.NewReader(param:e.Response.Body)," + tBDigest + ",const:16384)"
+	tBDecoder  = "call:(mice.Encoding).NewDecoder(" + tBMice + ",call:bytes.NewBuffer(param:e.Response.Body)," + tBDigest + ",const:16384)"
 	tHdrSha    = "call:(bundle.Response).HeaderSha256(param:e.Response)"
 	tEncSubset = "call:(*signature.SignedSubset).Encode(param:s.SignedSubset)#0"
 )
@@ -82,9 +82,9 @@ func checkC06(e *Env) {
 		either("X.integrity", "integrity identifier equals the version's",
 			gate.Cmp("", "call:(mice.Encoding).IntegrityIdentifier("+tBMice+")", token.EQL, tFind+"#0.Hashes[const:0].PayloadIntegrityHeader")),
 		gate.Cmp("X.digest", tBDigest, token.NEQ, `const:""`),
-		gate.CallOK("X.mi.dec", "(mice.Encoding).NewDecoder", tBMice, "call:bytes.NewReader(param:e.Response.Body)", tBDigest, "const:16384"),
+		gate.CallOK("X.mi.dec", "(mice.Encoding).NewDecoder", tBMice, "call:bytes.NewBuffer(param:e.Response.Body)", tBDigest, "const:16384"),
 		either("X.mi.read", "ok(ReadAll(decoder))",
-			gate.CallOK("", "ioutil.ReadAll", tBDecoder+"#0"), gate.CallOK("", "io.ReadAll", tBDecoder+"#0")),
+			gate.CallOK("", "io.ReadAll", tBDecoder+"#0"), gate.CallOK("", "io.ReadAll", tBDecoder+"#0")),
 	)
 	e.requireStore("RESULT", ve, "alloc:signature.VerifyExchangeResult.VerifiedPayload", "call:i*.ReadAll("+tBDecoder+"#0)#0", "the bytes read from the MI decoder over the response body")
 	e.requireStore("RESULT", ve, "alloc:signature.VerifyExchangeResult.Authority", tFind+"#1", "the authority of the subset that lists the URL")
